@@ -296,7 +296,7 @@ func init() {
 				l.Add("fetch", netParams{Op: "fetch", N: 9, BaseRows: 4, Branches: 4, Tags: true, All: true, Force: []string{"", "", "mixed"}[i%3]}, int64(1031+i))
 				l.Add("push", netParams{Op: "push", N: 9, BaseRows: 4, Branches: 2, Tags: true, TagSrc: []string{"short", "bare", "head"}[i%3]}, int64(1041+i))
 				l.Add("push", netParams{Op: "push", N: 9, BaseRows: 4, Branches: 2, Tags: true, TagRel: "clobber", TagSrc: []string{"short", "bare", "head", ""}[i%4]}, int64(1051+i))
-				l.Add("fetch", netParams{Op: "fetch", N: 9, BaseRows: 4, Branches: 2, Tags: true, TagRel: "clobber", All: i%2 == 0}, int64(1061+i))
+				l.Add("fetch", netParams{Op: "fetch", N: 9, BaseRows: 4, Branches: 2, Tags: true, Tags2: true, TagRel: "clobber", All: i%2 == 0}, int64(1061+i))
 			}
 			for i := 0; i < l.N(150, 8000); i++ {
 				p := netParams{N: 4 + rng.Intn(9), BaseRows: 4, Branches: 1 + rng.Intn(4), Tags: rng.Intn(2) == 0}
@@ -315,6 +315,9 @@ func init() {
 				p.Force = []string{"", "", "", "global", "refspec", "mixed", "mixed"}[rng.Intn(7)]
 				if p.Op == "fetch" && rng.Intn(3) == 0 {
 					p.All = true // the same refspecs, taken from the remote's configuration by `fetch --all`
+				}
+				if p.Tags && rng.Intn(2) == 0 {
+					p.Tags2 = true
 				}
 				if p.Op == "push" && p.Tags {
 					p.TagSrc = []string{"", "short", "bare", "head"}[rng.Intn(4)]
